@@ -25,8 +25,12 @@
    [destroy_list], printed in the final lines, see [final]).
 
    Ghost (never read by control flow, not in events): npos / lo / hi (global position
-   order of inserted nodes), mlog (mutators in write-mutex order), the counters
-   nct / ndt / nfr of every cell. *)
+   order of inserted nodes), mlog (mutators in the order they take effect = write-mutex order),
+   lst (the abstract list: node ids, front first; always = fold apply_m mlog []), zlog (the log
+   records pushed on m_zombie_head and not yet deallocated, newest first), the counters
+   nct / ndt / nfr of every cell.  A push takes effect at the store that makes the node reachable
+   (m_head for push_front and for the first element, oldTail->next for push_back), an erase at
+   the store that unlinks the node from the forward chain. *)
 From Coq Require Import List Arith ZArith Bool.
 Import ListNotations.
 From GV Require Import Sched Events.
@@ -75,16 +79,25 @@ Inductive mop := MPushF (k : nat) | MPushB (k : nat) | MErase (k : nat).
 Record glob := Glob {
   heap : list cell; head : option nat; tail : option nat; zhead : option nat;
   wmtx : option nat; fault : bool; misuse : bool; unfixed : bool;
-  mlog : list mop; lo : Z; hi : Z }.
+  (* ghost *) mlog : list mop; lo : Z; hi : Z; lst : list nat; zlog : list nat }.
 
-Definition with_heap g h := Glob h (head g) (tail g) (zhead g) (wmtx g) (fault g) (misuse g) (unfixed g) (mlog g) (lo g) (hi g).
-Definition with_head g x := Glob (heap g) x (tail g) (zhead g) (wmtx g) (fault g) (misuse g) (unfixed g) (mlog g) (lo g) (hi g).
-Definition with_tail g x := Glob (heap g) (head g) x (zhead g) (wmtx g) (fault g) (misuse g) (unfixed g) (mlog g) (lo g) (hi g).
-Definition with_zhead g x := Glob (heap g) (head g) (tail g) x (wmtx g) (fault g) (misuse g) (unfixed g) (mlog g) (lo g) (hi g).
-Definition with_mtx g x := Glob (heap g) (head g) (tail g) (zhead g) x (fault g) (misuse g) (unfixed g) (mlog g) (lo g) (hi g).
-Definition with_fault g := Glob (heap g) (head g) (tail g) (zhead g) (wmtx g) true (misuse g) (unfixed g) (mlog g) (lo g) (hi g).
-Definition with_misuse g := Glob (heap g) (head g) (tail g) (zhead g) (wmtx g) (fault g) true (unfixed g) (mlog g) (lo g) (hi g).
-Definition with_ghost g m l h := Glob (heap g) (head g) (tail g) (zhead g) (wmtx g) (fault g) (misuse g) (unfixed g) m l h.
+Definition with_heap g h := Glob h (head g) (tail g) (zhead g) (wmtx g) (fault g) (misuse g) (unfixed g) (mlog g) (lo g) (hi g) (lst g) (zlog g).
+Definition with_head g x := Glob (heap g) x (tail g) (zhead g) (wmtx g) (fault g) (misuse g) (unfixed g) (mlog g) (lo g) (hi g) (lst g) (zlog g).
+Definition with_tail g x := Glob (heap g) (head g) x (zhead g) (wmtx g) (fault g) (misuse g) (unfixed g) (mlog g) (lo g) (hi g) (lst g) (zlog g).
+Definition with_zhead g x := Glob (heap g) (head g) (tail g) x (wmtx g) (fault g) (misuse g) (unfixed g) (mlog g) (lo g) (hi g) (lst g) (zlog g).
+Definition with_mtx g x := Glob (heap g) (head g) (tail g) (zhead g) x (fault g) (misuse g) (unfixed g) (mlog g) (lo g) (hi g) (lst g) (zlog g).
+Definition with_fault g := Glob (heap g) (head g) (tail g) (zhead g) (wmtx g) true (misuse g) (unfixed g) (mlog g) (lo g) (hi g) (lst g) (zlog g).
+Definition with_misuse g := Glob (heap g) (head g) (tail g) (zhead g) (wmtx g) (fault g) true (unfixed g) (mlog g) (lo g) (hi g) (lst g) (zlog g).
+(* ghost updates *)
+Definition with_pos g l h := Glob (heap g) (head g) (tail g) (zhead g) (wmtx g) (fault g) (misuse g) (unfixed g) (mlog g) l h (lst g) (zlog g).
+Definition with_zlog g z := Glob (heap g) (head g) (tail g) (zhead g) (wmtx g) (fault g) (misuse g) (unfixed g) (mlog g) (lo g) (hi g) (lst g) z.
+Definition remove_nat (k : nat) (l : list nat) : list nat := filter (fun x => negb (Nat.eqb k x)) l.
+(* sequential semantics of the mutators on the abstract list (node ids, front first) *)
+Definition apply_m (l : list nat) (m : mop) : list nat :=
+  match m with MPushF k => k :: l | MPushB k => l ++ [k] | MErase k => remove_nat k l end.
+(* a mutator takes effect: appended to the log, applied to the abstract list *)
+Definition commit g (m : mop) := Glob (heap g) (head g) (tail g) (zhead g) (wmtx g) (fault g) (misuse g) (unfixed g)
+                                     (mlog g ++ [m]) (lo g) (hi g) (apply_m (lst g) m) (zlog g).
 
 Definition getc (g : glob) (k : nat) : option cell := nth_error (heap g) k.
 Definition okn (g : glob) (k : nat) : bool :=
@@ -172,7 +185,7 @@ Inductive pc :=
 | B_ld (it : nat) | N_ld (it c : nat) | D_rd (it c : nat)
 (* push_front / push_back / emplace_* *)
 | P_lock (o : op) | P_alloc (o : op) | P_constr (o : op) (n : nat) | P_ld (o : op) (n : nat)
-| P_e1 (n : nat) | P_e2 (n : nat)
+| P_e1 (o : op) (n : nat) | P_e2 (n : nat)
 | PF_next (n old : nat) | PF_back (n old : nat) | PF_head (n : nat)
 | PB_back (n old : nat) | PB_next (n old : nat) | PB_tail (n : nat)
 | P_unlock
@@ -294,7 +307,7 @@ Definition tstep (t c : nat) (g : glob) (l : loc) : option (glob * loc * list ev
   | R_cas o z old =>
     if (match zhead g, old with Some a, Some b => Nat.eqb a b | None, None => true | _, _ => false end)
        && negb (Nat.eqb c 3)
-    then Some (with_zhead g (Some z), Loc (prog l) (body_pc o) (Some (own_w l, Some z)) (its l),
+    then Some (with_zlog (with_zhead g (Some z)) (z :: zlog g), Loc (prog l) (body_pc o) (Some (own_w l, Some z)) (its l),
                [EA CASOK O_ZHEAD (cbase z) mo_reg_cas])
     else Some (g, goto (R_st o z (zhead g)), [EA CASFAIL O_ZHEAD (pid (zhead g)) mo_reg_cas])
   (* ---- begin / ++ / * ---- *)
@@ -316,8 +329,7 @@ Definition tstep (t c : nat) (g : glob) (l : loc) : option (glob * loc * list ev
     end
   | P_alloc o =>
     let '(g1, n) := do_alloc g (BNode dnode) in
-    let g2 := if is_front o then with_ghost g1 (mlog g1 ++ [MPushF n]) (lo g1 - 1) (hi g1)
-              else with_ghost g1 (mlog g1 ++ [MPushB n]) (lo g1) (hi g1 + 1) in
+    let g2 := if is_front o then with_pos g1 (lo g1 - 1) (hi g1) else with_pos g1 (lo g1) (hi g1 + 1) in
     Some (g2, goto (P_constr o n), [E K_ALLOC (cbase n) 1])
   | P_constr o n =>
     let p := if is_front o then lo g else hi g in
@@ -325,10 +337,10 @@ Definition tstep (t c : nat) (g : glob) (l : loc) : option (glob * loc * list ev
     Some (g1, goto (P_ld o n), es)
   | P_ld o n =>
     if is_front o then
-      Some (g, goto (match head g with None => P_e1 n | Some old => PF_next n old end), [ptr_ld O_HEAD (head g) mo_default])
+      Some (g, goto (match head g with None => P_e1 o n | Some old => PF_next n old end), [ptr_ld O_HEAD (head g) mo_default])
     else
-      Some (g, goto (match tail g with None => P_e1 n | Some old => PB_back n old end), [ptr_ld O_TAIL (tail g) mo_push_load_tail])
-  | P_e1 n => Some (with_head g (Some n), goto (P_e2 n), [ptr_st O_HEAD (Some n) mo_default])
+      Some (g, goto (match tail g with None => P_e1 o n | Some old => PB_back n old end), [ptr_ld O_TAIL (tail g) mo_push_load_tail])
+  | P_e1 o n => Some (commit (with_head g (Some n)) (if is_front o then MPushF n else MPushB n), goto (P_e2 n), [ptr_st O_HEAD (Some n) mo_default])
   | P_e2 n => Some (with_tail g (Some n), goto P_unlock, [ptr_st O_TAIL (Some n) mo_default])
   | PF_next n old =>
     let '(g1, fe) := chk (okn g n) n (setn g n (n_next (gnode g n) (Some old))) in
@@ -336,12 +348,12 @@ Definition tstep (t c : nat) (g : glob) (l : loc) : option (glob * loc * list ev
   | PF_back n old =>
     let '(g1, fe) := chk (okn g old) old (setn g old (n_back (gnode g old) (Some n))) in
     Some (g1, goto (PF_head n), ptr_st (cfld old) (Some n) mo_default :: fe)
-  | PF_head n => Some (with_head g (Some n), goto P_unlock, [ptr_st O_HEAD (Some n) mo_default])
+  | PF_head n => Some (commit (with_head g (Some n)) (MPushF n), goto P_unlock, [ptr_st O_HEAD (Some n) mo_default])
   | PB_back n old =>
     let '(g1, fe) := chk (okn g n) n (setn g n (n_back (gnode g n) (Some old))) in
     Some (g1, goto (PB_next n old), ptr_st (cfld n) (Some old) mo_default :: fe)
   | PB_next n old =>
-    let '(g1, fe) := chk (okn g old) old (setn g old (n_next (gnode g old) (Some n))) in
+    let '(g1, fe) := chk (okn g old) old (commit (setn g old (n_next (gnode g old) (Some n))) (MPushB n)) in
     Some (g1, goto (PB_tail n), ptr_st (cbase old) (Some n) mo_default :: fe)
   | PB_tail n => Some (with_tail g (Some n), goto P_unlock, [ptr_st O_TAIL (Some n) mo_default])
   | P_unlock => Some (with_mtx g None, done_, [E K_UNLOCK O_MTX 0; ret 0])
@@ -354,12 +366,11 @@ Definition tstep (t c : nat) (g : glob) (l : loc) : option (glob * loc * list ev
   | E_ld0 it cu =>
     let nd := gnode g cu in
     let nx0 := nnext nd in
-    let ga := with_ghost g (mlog g ++ [MErase cu]) (lo g) (hi g) in
     if ndel nd then
-      let '(g1, fe) := chk (okn g cu) cu ga in
+      let '(g1, fe) := chk (okn g cu) cu (commit g (MErase cu)) in
       Some (g1, goto (E_unlock it nx0), ptr_ld (cbase cu) nx0 mo_default :: fe)
     else
-      let '(g1, fe) := chk (okn g cu) cu (setn ga cu (n_del nd)) in
+      let '(g1, fe) := chk (okn g cu) cu (setn g cu (n_del nd)) in
       Some (g1, goto (E_ldb it cu nx0), ptr_ld (cbase cu) nx0 mo_default :: fe)
   | E_ldb it cu nx0 =>
     let pv := nback (gnode g cu) in
@@ -372,9 +383,9 @@ Definition tstep (t c : nat) (g : glob) (l : loc) : option (glob * loc * list ev
   | E_s1 it cu nx0 pv nx =>
     match pv with
     | Some p =>
-      let '(g1, fe) := chk (okn g p) p (setn g p (n_next (gnode g p) nx)) in
+      let '(g1, fe) := chk (okn g p) p (commit (setn g p (n_next (gnode g p) nx)) (MErase cu)) in
       Some (g1, goto (E_s2 it cu nx0 pv nx), ptr_st (cbase p) nx mo_default :: fe)
-    | None => Some (with_head g nx, goto (E_s2 it cu nx0 pv nx), [ptr_st O_HEAD nx mo_default])
+    | None => Some (commit (with_head g nx) (MErase cu), goto (E_s2 it cu nx0 pv nx), [ptr_st O_HEAD nx mo_default])
     end
   | E_s2 it cu nx0 pv nx =>
     match nx with
@@ -396,7 +407,7 @@ Definition tstep (t c : nat) (g : glob) (l : loc) : option (glob * loc * list ev
   | E_cas it nx0 z old =>
     if (match zhead g, old with Some a, Some b => Nat.eqb a b | None, None => true | _, _ => false end)
        && negb (Nat.eqb c 3)
-    then Some (with_zhead g (Some z), goto (E_unlock it nx0), [EA CASOK O_ZHEAD (cbase z) mo_default])
+    then Some (with_zlog (with_zhead g (Some z)) (z :: zlog g), goto (E_unlock it nx0), [EA CASOK O_ZHEAD (cbase z) mo_default])
     else Some (g, goto (E_stz it nx0 z (zhead g)), [EA CASFAIL O_ZHEAD (pid (zhead g)) mo_default])
   | E_unlock it nx0 =>
     Some (with_mtx g None, Loc (prog l) Idle (hnd l) (setit (its l) it nx0), [E K_UNLOCK O_MTX 0; ret 0])
@@ -436,7 +447,8 @@ Definition tstep (t c : nat) (g : glob) (l : loc) : option (glob * loc * list ev
     Some (g1, goto (U_zd n nx), ptr_ld (cbase n) nx mo_default :: fe)
   | U_zd n nx => let '(g1, es) := do_destroy g n in Some (g1, goto (U_zf n nx), es)
   | U_zf n nx =>
-    let '(g1, es) := do_dealloc g n in
+    let '(g0, es) := do_dealloc g n in
+    let g1 := with_zlog g0 (remove_nat n (zlog g0)) in
     Some (g1, goto (match nx with Some m => reclaim_at g1 m | None => U_stn end), es)
   | U_stn =>
     let z := own_rec l in
@@ -450,7 +462,7 @@ Definition tstep (t c : nat) (g : glob) (l : loc) : option (glob * loc * list ev
 
 Definition fin (l : loc) : bool := match at_ l, prog l with Idle, [] => true | _, _ => false end.
 
-Definition init_glob (unf : bool) : glob := Glob [] None None None None false false unf [] 0 0.
+Definition init_glob (unf : bool) : glob := Glob [] None None None None false false unf [] 0 0 [] [].
 Definition init (unf : bool) (progs : list (list op)) : sys glob loc :=
   Sys (init_glob unf) (map (fun p => Loc p Idle None []) progs).
 
